@@ -280,22 +280,19 @@ func GenC27(seed uint64) []Case {
 	for _, k := range sameHdrKinds {
 		cs = append(cs, scSide(r, "side-"+mutName[k], k, false))
 	}
-	for i := 0; i < gen.Scale(2, 12); i++ {
+	for i := 0; i < gen.Scale(2, 40); i++ {
 		cs = append(cs, scSide(r, fmt.Sprintf("side-dl%d", i), sameHdrKinds[r.Intn(len(sameHdrKinds))], true))
 	}
 	for _, k := range []int{mStateHash, mTxHash, mReorder, mAlterSig, mDrop, mTime} {
 		cs = append(cs, scLastInvalid(r, "lastinvalid-"+mutName[k], k))
 	}
 	// several mutants in a row
-	for i := 0; i < gen.Scale(6, 80); i++ {
+	for i := 0; i < gen.Scale(6, 320); i++ {
 		n := 2 + r.Intn(3)
-		var ks []int
-		for j := 0; j < n; j++ {
-			ks = append(ks, r.Intn(nMut))
-		}
+		ks := r.Perm(nMut)[:n] // distinct kinds: two mutants of one kind could be the same block
 		cs = append(cs, scTip(r, fmt.Sprintf("tipmix%d", i), ks))
 	}
-	for i := 0; i < gen.Scale(0, 40); i++ {
+	for i := 0; i < gen.Scale(0, 200); i++ {
 		k := r.Intn(nMut)
 		switch r.Intn(3) {
 		case 0:
